@@ -391,6 +391,15 @@ def gen_minor(rng):
         dt = rng.uniform(-50 * 365.25, 50 * 365.25)
     if e >= 0.98 and abs(dt) > 400 and rng.random() < 0.7:
         dt = rng.uniform(-400, 400)
+    if e < 0.98 and rng.random() < 0.1:
+        # a small mean anomaly (log-spaced 1e-6..1e-2 rad) whatever the
+        # size of the orbit: days from perihelion for a small orbit, most of
+        # a year for a large eccentric one
+        if rng.random() < 0.6:
+            e = rng.uniform(0.9, 0.98)
+        M = rng.choice((-1, 1)) * 10.0 ** rng.uniform(-6, -2)
+        n = 0.01720209895 / (q / (1.0 - e)) ** 1.5
+        dt = max(-18000.0, min(18000.0, M / n))
     return [q, e, inc, rng.uniform(0, 360), rng.uniform(0, 360), T, T + dt]
 
 
